@@ -123,6 +123,11 @@ func dereferenceJSONPointer(s *Schema, sptr string) (_ *Schema, err error) {
 		}
 	}
 	if s, ok := v.Interface().(*Schema); ok {
+		if s == nil {
+			// The last segment names a keyword that holds a subschema, but the
+			// keyword is absent.
+			return nil, errors.New("refers to an absent subschema")
+		}
 		return s, nil
 	}
 	return nil, fmt.Errorf("does not refer to a schema, but to a %s", v.Type())
